@@ -1,6 +1,6 @@
 """C14 -- tool exit status and output files reflect what happened (engine Q; DESIGN.md section 5, C14)."""
 from .. import cast, flow
-from ..cast import children, strip, walk, qt, pos, const_int, callee_of, call_args, calls_in
+from ..cast import children, strip, walk, qt, pos, const_int, callee_of, call_args, calls_in, dqt
 from ..frontend import AnalysisBroken
 
 MAINS = ['hexasm.cpp', 'xcmp.cpp', 'xrun.cpp', 'hexsim.cpp', 'hextb.cpp']
@@ -385,6 +385,9 @@ def rule_r3(rep, idxs):
             if not ok:
                 # assigned to a variable that every later return hands back
                 ok, how = _returned_via_variable(idx, m, site)
+            if ok is None:
+                rep.undecided('R3', '%s:run-result#%d' % (tu, k), how, pos(site) + ' main(' + tu + ')')
+                continue
             rep.add('R3', '%s:run-result#%d' % (tu, k), ok, pos(site) + ' main(' + tu + ')', how)
     # the value handed to main: Processor::run() returns the exit-status member (set by the exit system call) on every path
     ix = idxs['hexsim.cpp']
@@ -415,21 +418,83 @@ def rule_r3(rep, idxs):
 
 
 def _returned_via_variable(idx, m, site):
+    """(True | False | None, how): the run() result is stored in a variable; every return that follows in the variable's scope (= every
+    path that has executed the program) must hand that variable back.  A constant returned under `variable == k` is the same value
+    when k and the constant agree in their low eight bits."""
+    order = {id(n): k for k, n in enumerate(walk(m.body))}
+    parent = {}
+    for n in walk(m.body):
+        for c in children(n):
+            parent[id(c)] = n
+    vid, holder, name = None, None, '?'
     for d in walk(m.body):
         if d['kind'] == 'VarDecl' and any(x.get('id') == site['id'] for x in walk(d)):
-            vid = d['id']
-            rets = [r for r in walk(m.body) if r['kind'] == 'ReturnStmt' and children(r)
-                    and cast.decl_ref(children(r)[0]) == vid]
-            if rets:
-                return True, 'stored in `%s` and returned at %s' % (d.get('name'), pos(rets[0]))
-    for a in walk(m.body):
-        if a['kind'] == 'BinaryOperator' and a.get('opcode') == '=' and any(x.get('id') == site['id'] for x in walk(children(a)[1])):
-            vid = cast.decl_ref(children(a)[0])
-            rets = [r for r in walk(m.body) if r['kind'] == 'ReturnStmt' and children(r)
-                    and cast.decl_ref(children(r)[0]) == vid]
-            if vid and rets:
-                return True, 'assigned and returned at %s' % pos(rets[0])
-    return False, 'result is discarded (expression statement); main returns a constant instead'
+            vid, holder, name = d['id'], d, d.get('name')
+            break
+    if vid is None:
+        for a in walk(m.body):
+            if a['kind'] == 'BinaryOperator' and a.get('opcode') == '=' and any(x.get('id') == site['id'] for x in walk(children(a)[1])):
+                vid, holder = cast.decl_ref(children(a)[0]), a
+                name = (idx.by_id.get(vid) or {}).get('name', '?') if vid else '?'
+                break
+    if not vid:
+        return False, 'result is discarded (expression statement); main returns a constant instead'
+    scope = holder
+    while id(scope) in parent and scope['kind'] != 'CompoundStmt':
+        scope = parent[id(scope)]
+    later = [r for r in walk(scope) if r['kind'] == 'ReturnStmt' and children(r) and order[id(r)] > order[id(site)]]
+    if not later:
+        rets = [r for r in walk(m.body) if r['kind'] == 'ReturnStmt' and children(r) and cast.decl_ref(children(r)[0]) == vid]
+        if rets:
+            return True, 'stored in `%s` and returned at %s' % (name, pos(rets[0]))
+        return False, 'stored in `%s`, which no return statement hands back' % name
+
+    def mentions(e):
+        return any(y['kind'] == 'DeclRefExpr' and (y.get('referencedDecl') or {}).get('id') == vid for y in walk(e))
+    verdict, notes = True, []
+    for r in later:
+        e = strip(children(r)[0])
+        if cast.decl_ref(children(r)[0]) == vid:
+            continue
+        c = const_int(e, idx)
+        if c is None:
+            verdict = None if verdict is not False else False
+            notes.append('the return at %s hands back an expression this rule does not evaluate' % pos(r))
+            continue
+        # guards between the return and the scope that mention the variable
+        guards = []
+        x = r
+        while id(x) in parent and x is not scope:
+            p_ = parent[id(x)]
+            if p_['kind'] == 'IfStmt':
+                ch = children(p_)
+                i = 1 if (p_.get('hasInit') or p_.get('hasVar')) else 0
+                if mentions(ch[i]):
+                    guards.append((ch[i], x is ch[i + 1]))
+            x = p_
+        if not guards:
+            verdict = False
+            notes.append('the return at %s hands back the constant %d whatever the program\'s exit value was' % (pos(r), c))
+            continue
+        same = None
+        for g, in_then in guards:
+            gx = strip(g)
+            if gx['kind'] == 'BinaryOperator' and gx.get('opcode') == '==' and in_then:
+                ka, kb = children(gx)
+                k = const_int(kb, idx) if cast.decl_ref(ka) == vid else (const_int(ka, idx) if cast.decl_ref(kb) == vid else None)
+                if k is not None:
+                    same = ((k & 0xFF) == (c & 0xFF))
+        if same is True:
+            continue
+        if same is False:
+            verdict = False
+            notes.append('when the program\'s exit value makes the test at %s true, main returns %d instead of it' % (pos(guards[0][0]), c))
+        else:
+            verdict = None if verdict is not False else False
+            notes.append('the constant return at %s is guarded by a test of the value that this rule does not evaluate' % pos(r))
+    if verdict is True:
+        return True, 'stored in `%s`; every return that follows (%d) hands it back' % (name, len(later))
+    return verdict, '; '.join(notes)
 
 
 class CompileStatusClient(flow.Client):
@@ -1071,6 +1136,156 @@ def rule_r12(rep, idxs):
             rep.add('R12', '%s:main:no-direct-exit' % tu, True, pos(m.node) + ' main(%s)' % tu, 'main never exits other than by returning', nontrivial=False)
 
 
+# --------------------------------------------------------------------------------------------------
+# R14: "xrun behaves like xcmp followed by hexsim": both mains configure the simulator object alike
+# --------------------------------------------------------------------------------------------------
+
+def _const_of(e, idx):
+    e = cast.strip(e)
+    if e['kind'] == 'CXXBoolLiteralExpr':
+        return 1 if e.get('value') in (True, 'true') else 0
+    return cast.const_int(e, idx)
+
+
+def _simple_setter(g):
+    """(member name) if the method is `member = parameter;` and nothing else, else None."""
+    if g is None or g.body is None or len(g.params) != 1:
+        return None
+    sts = children(g.body)
+    if len(sts) != 1:
+        return None
+    x = cast.strip(sts[0])
+    if x['kind'] != 'BinaryOperator' or x.get('opcode') != '=':
+        return None
+    m = cast.member_ref(children(x)[0])
+    r = cast.strip(children(x)[1])
+    if m and cast.is_this_member(children(x)[0]) and r['kind'] == 'DeclRefExpr' and (r.get('referencedDecl') or {}).get('id') == g.params[0]['id']:
+        return m[0]
+    return None
+
+
+def _processor_configuration(idx, tu):
+    """{member: ('const', v) | ('var', text)} for the configuration calls main (and the helpers of the same file it calls) makes on
+    hexsim::Processor objects, plus the list of calls that are not simple setters."""
+    from .. import initrules
+    m = main_of(idx)
+    funcs, seen = [m], {m.id}
+    i = 0
+    while i < len(funcs):
+        for c in cast.calls_in(funcs[i].body):
+            did = callee_of(c)[2]
+            g = idx.func_by_id.get(did) if did else None
+            if g is not None and getattr(g, 'defn', None) and g.body is None:
+                g = g.defn
+            if g is not None and g.body is not None and not g.cls and g.id not in seen and pos(g.node).split(':')[0].split('/')[-1] == tu:
+                seen.add(g.id)
+                funcs.append(g)
+        i += 1
+    conf, odd, sites = {}, [], 0
+    for f in funcs:
+        cond_nodes = set()
+        for n in walk(f.body):
+            if n['kind'] in ('IfStmt', 'ForStmt', 'WhileStmt', 'DoStmt', 'SwitchStmt', 'ConditionalOperator'):
+                if n is not f.body:
+                    for ch in children(n):
+                        for y in walk(ch):
+                            cond_nodes.add(id(y))
+        # conditions of main that only select the error / compile-failed exits are not "conditional configuration": a call counts as
+        # conditional only when an if / loop *inside which it sits* also contains no construction of the object it configures
+        for c in cast.calls_in(f.body):
+            kind, name, did, obj = callee_of(c)
+            if kind != 'method' or obj is None or 'Processor' not in (qt(obj) + dqt(obj)):
+                continue
+            g = idx.func_by_id.get(did) if did else None
+            if g is not None and getattr(g, 'defn', None) and g.body is None:
+                g = g.defn
+            if g is None or g.cls != 'hexsim::Processor' or name in ('load', 'run'):
+                continue
+            sites += 1
+            mem = _simple_setter(g)
+            a = cast.call_args(c)
+            if mem is None or len(a) != 1:
+                odd.append('%s at %s' % (name, pos(c)))
+                continue
+            v = _const_of(a[0], idx)
+            # conditional relative to the object's own declaration?
+            decl = cast.decl_ref(obj)
+            decl_node = idx.by_id.get(decl) if decl else None
+            conditional = False
+            if decl_node is not None:
+                for n in walk(f.body):
+                    if n['kind'] in ('IfStmt', 'ForStmt', 'WhileStmt', 'DoStmt', 'SwitchStmt') and any(y is c for y in walk(n)) and \
+                            not any(y is decl_node for y in walk(n)):
+                        conditional = True
+            if v is not None and not conditional:
+                conf[mem] = ('const', v)
+            else:
+                conf[mem] = ('var', ' '.join(y.get('name', '') or (y.get('referencedDecl') or {}).get('name', '') for y in walk(a[0])
+                                             if y['kind'] in ('DeclRefExpr', 'MemberExpr')) + (' (conditional)' if conditional else ''))
+    return conf, odd, sites, funcs
+
+
+def rule_r14(rep, idxs):
+    rep.rule('R14', '"xrun behaves like xcmp followed by hexsim on the result": every simulator setting that xrun or hexsim fixes by a '
+             'constant has the same value in the other tool (a setter call with a constant, or the constructor default when the tool '
+             'makes no call)', floor=2, floor_reason='tracing and input truncation')
+    from .. import initrules
+    ih = idxs['hexsim.cpp']
+    rec = ih.records.get('hexsim::Processor')
+    if rec is None:
+        rep.undecided('R14', 'processor-class', 'hexsim::Processor not found', 'hexsim.hpp')
+        return
+    confs = {}
+    for tu in ('hexsim.cpp', 'xrun.cpp'):
+        conf, odd, sites, funcs = _processor_configuration(idxs[tu], tu)
+        confs[tu] = conf
+        for o in odd:
+            rep.undecided('R14', '%s:%s' % (tu, o.split(' ')[0]), 'configuration call %s is not a plain setter (member = argument): its effect is not modelled' % o, tu)
+        for f in funcs:
+            rep.analysed(f.sig, tu)
+    # every configurable member: the ones a plain setter of the class assigns
+    setters = {}
+    for g in ih.all_funcs():
+        if g.cls == 'hexsim::Processor' and g.body is not None:
+            mem = _simple_setter(g)
+            if mem:
+                setters[mem] = g
+    ctors = [c for c in rec.ctors if c.inits or c.body is not None]
+
+    def default_of(mem):
+        fld = next((f for f in rec.fields if f.get('name') == mem), None)
+        if fld is None or len(ctors) != 1:
+            return None
+        how = initrules.ctor_initialised(ih, ctors[0], fld)
+        if how and how[0] == 'mem-init':
+            ch = children(how[1])
+            return _const_of(ch[0], ih) if ch else None
+        if how and how[0] == 'default-member-init':
+            ch = children(fld)
+            return _const_of(ch[-1], ih) if ch else None
+        return None
+    for mem in sorted(setters):
+        vals = {}
+        for tu in ('hexsim.cpp', 'xrun.cpp'):
+            c = confs[tu].get(mem)
+            if c is None:
+                d = default_of(mem)
+                vals[tu] = ('const', d) if d is not None else ('unknown', None)
+            else:
+                vals[tu] = c
+        a, b = vals['hexsim.cpp'], vals['xrun.cpp']
+        where = pos(setters[mem].node) + ' ' + setters[mem].qname
+        if a[0] == 'const' and b[0] == 'const':
+            rep.add('R14', 'setting:' + mem, a[1] == b[1], where,
+                    'hexsim runs with %s = %s, xrun with %s = %s%s' % (mem, a[1], mem, b[1], '' if a[1] == b[1] else
+                                                                      ': a program whose behaviour depends on this setting ends differently under xrun than under xcmp + hexsim'))
+        elif a[0] == 'var' and b[0] == 'var':
+            rep.add('R14', 'setting:' + mem, True, where, 'both tools set %s from an option variable (%s / %s)' % (mem, a[1].strip(), b[1].strip()))
+        else:
+            rep.undecided('R14', 'setting:' + mem, 'hexsim: %s, xrun: %s - a constant on one side and a variable (or nothing recognisable) on the '
+                          'other cannot be compared' % (a, b), where)
+
+
 def run(rep, tier):
     idxs = {tu: cast.load(tu) for tu in MAINS}
     rep.trusted = ['clang 14 AST (resolved callees, types)', 'frozen tables ALLOWED_WRITERS / ACCEPTED_LATE_THROWS in hexsa/rules/c14.py']
@@ -1087,6 +1302,7 @@ def run(rep, tier):
     rule_r9(rep, idxs)
     rule_r11(rep, idxs)
     rule_r12(rep, idxs)
+    rule_r14(rep, idxs)
     # R13: a formatting exception in the middle of a run replaces the program's exit status by 1
     from .. import robust
     rep.rule('R13', 'every boost::format string in the simulator, the drivers, the compiler and the assembler is fed exactly as many arguments as '
